@@ -2,7 +2,7 @@
 use crate::monitors::MonCfg;
 use crate::scenario::GenBias;
 
-pub const ENGINE_A_PROPS: [&str; 8] = ["C01", "C02", "C03", "C07", "C09", "C13", "C14", "C17"];
+pub const ENGINE_A_PROPS: [&str; 9] = ["C01", "C02", "C03", "C07", "C09", "C11", "C13", "C14", "C17"];
 
 pub const EXPECTED_PROBES: [&str; 14] = [
     "timelock_arm_taken",
